@@ -80,13 +80,13 @@ def run(chk):
     # an equation whose dynamic loss declares a heterogeneous parameter: the residual is evaluated with that parameter
     # replaced by the value of the user's function at the row's point (the parameters "the equation is given")
     for eq_type in ('ODE', 'statio_PDE', 'nonstatio_PDE'):
-        for pk in ((), ('th',)):
+        for pk, omit in (((), False), (('th',), False), ((), True)):
             cfg = {"loss": eq_type, "net": "PINN", "residual_components": 2, "weight": "vector", "param_batch": list(pk),
-                   "heterogeneous_parameter": "nu"}
+                   "heterogeneous_parameter": "nu", "other_key": "omitted from the map" if omit else "mapped to None"}
             site = {"ODE": "jinns.loss._LossODE:LossODE.evaluate", "statio_PDE": "jinns.loss._LossPDE:LossPDEStatio.evaluate",
                     "nonstatio_PDE": "jinns.loss._LossPDE:LossPDENonStatio.evaluate"}[eq_type]
 
-            def go(eq_type=eq_type, pk=pk):
+            def go(eq_type=eq_type, pk=pk, omit=omit):
                 from ..lossenv import user_fn, row_point, row_params, weighted_sq_sum, mean_over, prepend
                 h = user_fn('h_nu', 1, 'scalar0d')
 
@@ -102,7 +102,7 @@ def run(chk):
                             raise Finding(f"heterogeneity function called with a {sorted(tags)} argument where the "
                                           f"{'time' if tag == 'T' else 'space point'} is documented (argument order (t, x, u, params))")
                     return h(*pts_)
-                het = {'nu': het_fn, 'th': None}
+                het = {'nu': het_fn} if omit else {'nu': het_fn, 'th': None}
                 dyn = E.user_dynamic_loss(eq_type, 2, heterogeneity=het)
                 S = SingleLoss(E, eq_type, 'PINN', d=2, m_u=2, m_res=2, terms=('dyn',), wkind='vector', eq_keys=('nu', 'th'), dyn=dyn)
                 total, terms = S.evaluate(param_keys=pk)
